@@ -61,6 +61,24 @@ def rule_iface(ctx: Ctx) -> RuleReport:
                     rep.ok({"class": c.name, "implements": f"{iface}.{m}"})
                 else:
                     rep.fail(Finding("C04-IFACE", DT, c.name, f"{iface}.{m}", f"{c.name} lists {iface} among its bases but does not define {m}()", line=c.node.lineno))
+    # accessors compute on stored strings: float -> int conversions of document values cannot overflow
+    dtm = ctx.p.module(DT)
+    n_conv = 0
+    for fi in dtm.functions.values():
+        convs = [c for c in ast.walk(fi.node) if isinstance(c, ast.Call) and isinstance(c.func, ast.Name) and c.func.id == "int" and c.args and any(isinstance(x, ast.Call) and isinstance(x.func, ast.Name) and x.func.id == "round" for x in ast.walk(c.args[0]))]
+        if not convs:
+            continue
+        floats = {n.targets[0].id for n in walk_own(fi.node) if isinstance(n, ast.Assign) and len(n.targets) == 1 and isinstance(n.targets[0], ast.Name) and isinstance(n.value, ast.Call) and isinstance(n.value.func, ast.Name) and n.value.func.id == "float"}
+        guarded = any(isinstance(i, ast.If) and i.body and isinstance(i.body[-1], ast.Return) and any(isinstance(x, ast.Name) and x.id in floats for x in ast.walk(i.test))
+                      and any(isinstance(x, ast.Compare) and isinstance(x.ops[0], (ast.Gt, ast.GtE, ast.In)) for x in ast.walk(i.test)) for i in walk_own(fi.node))
+        in_try = all(any(isinstance(t, ast.Try) and any(x is c for st in t.body for x in ast.walk(st)) and any(h.type is None or "OverflowError" in norm(h.type) or norm(h.type) in ("Exception", "ArithmeticError") for h in t.handlers) for t in walk_own(fi.node)) for c in convs)
+        n_conv += len(convs)
+        rep.unit(fi.key)
+        if guarded or in_try:
+            for _ in convs:
+                rep.ok()
+        else:
+            rep.fail(Finding("C04-IFACE", DT, fi.qual, "int(round(<float from the document>)) unguarded", f"{fi.qual} converts a float parsed from a stored string with int(round(...)) without a magnitude test or an OverflowError handler: a length with hundreds of digits is infinite as a float and the accessor that calls this raises OverflowError", line=convs[0].lineno))
     return rep
 
 
